@@ -62,6 +62,10 @@ CASES = [
             "    lookups = []\n    for dim, coord in query.items():\n"
             "        lookups.append((array.get_axis_num(dim), get_coord_index(array, dim, coord, True)))\n"
             "    for dim_index, position in lookups:\n        indexer[dim_index] = position\n")]),
+    ("RW6-new-optional-parameters-at-the-end", "rewrite", [
+        (D, "    size: Optional[int] = None,\n    dtype: DTypeLike = np.float64,\n    **attrs,\n) -> xr.Variable:\n    \"\"\"Create a range dimension.",
+            "    size: Optional[int] = None,\n    dtype: DTypeLike = np.float64,\n    endpoint: bool = False,\n    **attrs,\n) -> xr.Variable:\n    \"\"\"Create a range dimension."),
+        (D, "    value: float,\n    raise_error: bool = True,\n) -> int:", "    value: float,\n    raise_error: bool = True,\n    tolerance: float = 0.0,\n) -> int:")]),
     # ---------------------------------------------------------------- mutants: state between calls
     ("S1-range-cache-keyed-without-dtype", "mutant", [
         (D, "def create_range_dim(", "_RANGE_CACHE: dict = {}\n\n\ndef create_range_dim("),
@@ -84,10 +88,10 @@ CASES = [
             "        return xr.Variable(dims=name, data=cached, attrs={DimAttrs.step.value: step, **attrs})\n"
             + ARANGE),
         (D, RETVAR, "    if key is not None:\n        _RANGE_CACHE[key] = coords\n" + RETVAR)]),
-    ("S3-dim-range-memoised-in-array-attrs", "mutant", [
-        (D, GET_RANGE,
-            "    memo = array.attrs.setdefault('_dim_range', {})\n    if dim not in memo:\n"
-            "        index = array.indexes[dim]\n        memo[dim] = (index.min(), index.max())\n    return memo[dim]\n")]),
+    ("S3-lookup-range-memoised-in-array-attrs", "mutant", [
+        (D, RANGE,
+            "    memo = arr.attrs.setdefault('_range_memo', {})\n    if dim not in memo:\n        memo[dim] = get_dim_range(arr, dim)\n"
+            "    start, stop = memo[dim]\n\n    if value < start or value > stop:\n")]),
     ("S4-dim-range-cached-by-id-of-array", "mutant", [
         (D, "def get_dim_range(", "_DIM_RANGE: dict = {}\n\n\ndef get_dim_range("),
         (D, GET_RANGE,
@@ -118,6 +122,12 @@ CASES = [
             "        step = (stop - start) // size if isinstance(size, np.integer) and isinstance(stop, (int, np.integer)) else (stop - start) / size\n")]),
     ("P4-raise-error-compared-with-is-false", "mutant", [
         (D, "        if raise_error:\n            raise KeyError(", "        if raise_error is not False:\n            raise KeyError(")]),
+    ("P5-time-range-name-and-dtype-keyword-only", "mutant", [
+        (D, "    samplerate: Optional[float] = None,\n    name: str = Dimensions.time.value,\n",
+            "    samplerate: Optional[float] = None,\n    *,\n    name: str = Dimensions.time.value,\n")]),
+    ("P6-lookup-value-parameter-renamed", "mutant", [
+        (D, "    value: float,\n    raise_error: bool = True,\n) -> int:", "    position: float,\n    raise_error: bool = True,\n) -> int:"),
+        (D, RANGE, "    value = position\n" + RANGE)]),
     # ---------------------------------------------------------------- mutants: option interplay / siblings
     ("O1-samplerate-path-forgets-the-name", "mutant", [
         (D, TIME_STEP, "        step = 1.0 / samplerate\n        name = Dimensions.time.value\n")]),
